@@ -106,9 +106,13 @@ def choose_op(rng, pose, allow_tf):
         if N >= 2: c += ["normalize", "normalize"]
         c += ["normalize_distribution", "normalize_unnormalize"]
     elif be == "torch":
-        c += ["augment2d"]
+        c += ["augment2d", "get_components", "get_components"]
+        if len(comps) > 1: c += ["remove_components"]
+        if sum(len(p) for _, p in comps) > 1: c += ["remove_points"]
     else:
-        c += ["augment2d"]
+        c += ["augment2d", "get_components", "get_components"]
+        if len(comps) > 1: c += ["remove_components"]
+        if sum(len(p) for _, p in comps) > 1: c += ["remove_points"]
         if N >= 2: c += ["normalize"]
         c += ["normalize_distribution"]
     for _ in range(12):
